@@ -389,6 +389,53 @@ def p1c(prog):
     return inst, findings
 
 
+def p1d(prog):
+    """the overload implementations (`operate` members of the word classes) construct their result: a return statement never hands back
+    an operand (a parameter, moved or dereferenced), which would carry the position number of whatever produced it"""
+    inst, findings = [], []
+    n = 0
+    for f in sorted(prog.funcs.values(), key=lambda f: f["fid"]):
+        if f.get("n") != "operate" or not f.get("cls") or f.get("body") is None or not prog.rel(f.get("file", "")).startswith("libzwerg/"):
+            continue
+        ops = {p_["id"]: p_["n"] for p_ in f.get("params", []) if "unique_ptr<" in str(p_.get("t", "")) and p_.get("id") is not None}
+        if not ops:
+            continue
+        n += 1
+        cls = f["cls"].split("<")[0].split("::")[-1]
+        key = "P1d:" + f["q"].split("<")[0]
+        bad = None
+        for r in walk_nolambda(f["body"]):
+            if r.get("k") != "return" or r.get("e") is None:
+                continue
+            e = unwrap(r["e"])
+            for _ in range(8):
+                if not isinstance(e, dict):
+                    break
+                if e.get("k") == "ctor" and len(e.get("a", [])) == 1:
+                    e = unwrap(e["a"][0])
+                elif e.get("k") == "call" and e.get("fn") in ("move", "forward") and e.get("a"):
+                    e = unwrap(e["a"][0])
+                elif e.get("k") == "call" and e.get("fn") in ("operator*", "release", "get") and (e.get("obj") is not None or e.get("a")):
+                    e = unwrap(e["obj"] if e.get("obj") is not None else e["a"][0])
+                elif e.get("k") == "un" and e.get("op") == "*":
+                    e = unwrap(e["e"])
+                elif e.get("k") == "cast":
+                    e = unwrap(e["e"])
+                else:
+                    break
+            if isinstance(e, dict) and e.get("k") == "ref" and e.get("id") in ops:
+                bad = (r.get("l"), ops[e["id"]])
+        if not any(i[0] == key for i in inst):
+            inst.append((key, {"operands": len(ops)}))
+        if bad and cls not in REPUSH_OK:
+            findings.append({"key": key, "where": str(bad[0] or f["l"]),
+                             "msg": "%s returns its operand `%s` as the result: the value keeps the position number of whatever produced it, so this word does not number its result afresh "
+                                    "(`\"abc\" elem \"x\" add pos` would give 0 1 2)" % (f["q"].split("<")[0], bad[1]), "detail": None})
+    if n < 20:
+        raise Broken("only %d overload implementations with value operands found (floor 20)" % n)
+    return inst, findings
+
+
 class _Sel:
     def on_store(self, name, val):
         return val & 0xffffffff if isinstance(val, int) else val
@@ -601,7 +648,7 @@ def p5(prog, tier="quick"):
     n = 0
     for a in strs:
         sa = show(a)
-        ok, r = run("P5:length", f_len, _op(ev, f_len), [vs(a)], "`length` of %s" % sa)
+        ok, r = run("P5:length", f_len, _op(ev, f_len), [vs(a, 4)], "`length` of %s" % sa)
         n += 1
         if ok and (cval(r) != len(a) or getattr(r, "m_pos", None) != 0):
             report("P5:length", f_len, "`length` of %s yields %s; the string has %d bytes" % (sa, cval(r), len(a)))
@@ -629,9 +676,11 @@ def p5(prog, tier="quick"):
         for b in strs:
             sa, sb = show(a), show(b)
             n += 1
-            ok, r = run("P5:add", f_add, _op(ev, f_add), [vs(a), vs(b)], "`add` of %s and %s" % (sa, sb))
+            # the operands are the 4th and 6th result of whatever yielded them: the sum is a result of `add` and is numbered 0
+            ok, r = run("P5:add", f_add, _op(ev, f_add), [vs(a, 3), vs(b, 5)], "`add` of %s and %s" % (sa, sb))
             if ok and (sval(r) != a + b or getattr(r, "m_pos", None) != 0):
-                report("P5:add", f_add, "`add` of %s and %s yields %s" % (sa, sb, show(sval(r)) if sval(r) is not None else None))
+                report("P5:add", f_add, "`add` of %s (position 3) and %s (position 5) yields %s at position %s; expected their concatenation, numbered 0 as the only result of this operation" % (
+                    sa, sb, show(sval(r)) if sval(r) is not None else None, getattr(r, "m_pos", None)))
             for key, f, model in (("P5:?find", f_find, b in a), ("P5:?starts", f_starts, a.startswith(b)), ("P5:?ends", f_ends, a.endswith(b))):
                 ok, r = run(key, f, _op(ev, f), [vs(a), vs(b)], "`%s` on %s and %s" % (key[3:], sa, sb))
                 if ok and pr(r) != ("yes" if model else "no"):
